@@ -16,7 +16,7 @@ I == Traces[tid].init
 TInit ==
     /\ tid \in 1..Len(Traces)
     /\ l = 1 /\ hl = <<>>
-    /\ InitWith(TagInit(I.kind, I.ck, [b \in DOMAIN I.blk |-> DV(I.blk[b])], I.locked, I.keychg))
+    /\ InitWith(TagInit(I.kind, I.ck, [b \in DOMAIN I.blk |-> DV(I.blk[b])], I.locked, I.keychg, I.id1))
 
 Ev == T[l]
 IsEv(a) == l <= Len(T) /\ Ev.a = a /\ l' = l + 1 /\ UNCHANGED tid
